@@ -159,6 +159,8 @@ func runC06(p *core.Program, r *core.Report) {
 	c06ErrorVisible(p, r)
 	c06FlushError(p, r)
 	c06Fifo(p, r)
+	r.Rule("C06.deadline", "a write deadline (an absolute time) is armed for the write that follows it, not once per connection", 1)
+	c06Deadline(p, r)
 }
 
 func c06SingleWriter(p *core.Program, r *core.Report, t *types.Named) {
@@ -729,6 +731,51 @@ func c06Fifo(p *core.Program, r *core.Report) {
 		})
 		_ = s
 		r.Check(put, "C06.fifo", "net/oneway.OneWayTcpClient.SendFlush enqueue", p.Pos(sf.Decl.Pos()), "Queue.Put (tail; refusal reported as an error)", "queue mode does not enqueue with Queue.Put")
+		// in queue mode everything accepted goes through the queue: on no path that found UseQueue set
+		// is the pack written directly (it would overtake the packs still waiting in the queue)
+		info := sf.Pkg.TypesInfo
+		rn := recvName(sf)
+		norm := func(e ast.Expr) string {
+			return strings.ReplaceAll(stripSpaces(types.ExprString(e)), rn+".", "")
+		}
+		in := newInliner(p, sf, func(fn *types.Func) bool { return fn.Name() == "sendDirect" || fn.Name() == "send" })
+		ps, over := paths.Enumerate(sf.Decl.Body, paths.Config{Info: info, Expand: in.Expand, Inline: in.Body,
+			Cond: func(c ast.Expr, v bool) *paths.Event {
+				return &paths.Event{Kind: "COND", Arg: condKey(info, norm, c, v), Pos: c.Pos()}
+			},
+			Classify: func(n ast.Node) []paths.Event {
+				var out []paths.Event
+				ast.Inspect(n, func(m ast.Node) bool {
+					if _, isLit := m.(*ast.FuncLit); isLit {
+						return false
+					}
+					if call, ok := m.(*ast.CallExpr); ok {
+						f := norm(call.Fun)
+						switch {
+						case strings.HasSuffix(f, "Queue.Put"):
+							out = append(out, paths.Event{Kind: "PUT", Pos: call.Pos()})
+						case f == "sendDirect" || f == "send":
+							out = append(out, paths.Event{Kind: "DIRECT", Pos: call.Pos()})
+						}
+					}
+					return true
+				})
+				return out
+			}})
+		bypass := ""
+		sawQ := false
+		for _, pa := range ps {
+			if !pa.Consistent() || !pa.HasArg("COND", "UseQueue=true") {
+				continue
+			}
+			sawQ = true
+			if pa.Has("DIRECT") {
+				bypass = "with UseQueue set a path writes the pack directly instead of queueing it (" + pa.String() + "): it reaches the collector before packs accepted earlier that are still in the queue"
+			}
+		}
+		if !over && sawQ {
+			r.Check(bypass == "", "C06.fifo", "net/oneway.OneWayTcpClient.SendFlush queue mode", p.Pos(sf.Decl.Pos()), "every path that finds UseQueue set enqueues and never sends directly", bypass)
+		}
 	}
 	// drain: process/SendAndClear take with GetTimeout/GetNoWait
 	for _, m := range []string{"process", "SendAndClear"} {
@@ -945,5 +992,90 @@ func c06Redial(p *core.Program, r *core.Report, t *types.Named) {
 			continue
 		}
 		fileProbs(r, "C06.redial", c, p.Pos(fi.Decl.Pos()), probs, "the dial loop covers the whole server list on every call")
+	}
+}
+
+// c06Deadline: SetWriteDeadline / SetDeadline take an absolute point in time. A deadline computed
+// from time.Now() bounds the writes that follow it in the same function (or, when it sits in a helper
+// that only arms it, in the callers of that helper); armed once where the connection is made, with no
+// write after it, it is a limit on the connection's age: once the connection is older than Timeout
+// every write on the healthy link fails and what was accepted is dropped.
+func c06Deadline(p *core.Program, r *core.Report) {
+	pk := p.Pkg("net/oneway")
+	if pk == nil {
+		return
+	}
+	writesAfter := func(fi *core.FuncInfo, after token.Pos) bool {
+		found := false
+		ast.Inspect(fi.Decl.Body, func(n ast.Node) bool {
+			call, ok := n.(*ast.CallExpr)
+			if !ok || call.Pos() <= after {
+				return true
+			}
+			sel, ok := ast.Unparen(call.Fun).(*ast.SelectorExpr)
+			if !ok {
+				return true
+			}
+			switch sel.Sel.Name {
+			case "Write", "Flush", "WriteString", "ReadFrom":
+				if t := fi.Pkg.TypesInfo.TypeOf(sel.X); t != nil {
+					ts := t.String()
+					if strings.Contains(ts, "bufio.Writer") || strings.Contains(ts, "net.Conn") || strings.Contains(ts, "net.TCPConn") || strings.Contains(ts, "io.Writer") {
+						found = true
+					}
+				}
+			case "send", "Flush_":
+				found = true
+			}
+			return true
+		})
+		return found
+	}
+	for _, fi := range p.Funcs {
+		if fi.Pkg != pk || fi.Decl.Body == nil {
+			continue
+		}
+		info := fi.Pkg.TypesInfo
+		ast.Inspect(fi.Decl.Body, func(n ast.Node) bool {
+			call, ok := n.(*ast.CallExpr)
+			if !ok || len(call.Args) != 1 {
+				return true
+			}
+			sel, ok := ast.Unparen(call.Fun).(*ast.SelectorExpr)
+			if !ok || (sel.Sel.Name != "SetWriteDeadline" && sel.Sel.Name != "SetDeadline") {
+				return true
+			}
+			fn, _ := info.Uses[sel.Sel].(*types.Func)
+			if fn == nil || fn.Pkg() == nil || fn.Pkg().Path() != "net" {
+				return true
+			}
+			// the zero time clears a deadline
+			if cl, ok := ast.Unparen(call.Args[0]).(*ast.CompositeLit); ok && len(cl.Elts) == 0 {
+				return true
+			}
+			ok2 := writesAfter(fi, call.Pos())
+			if !ok2 {
+				// a helper that only arms the deadline: every caller in the package writes after the call
+				callers, all := 0, true
+				for _, cf := range p.Funcs {
+					if cf.Pkg != pk || cf.Decl.Body == nil || cf == fi {
+						continue
+					}
+					ast.Inspect(cf.Decl.Body, func(m ast.Node) bool {
+						if c2, ok := m.(*ast.CallExpr); ok && calleeFunc(cf.Pkg.TypesInfo, c2) == fi.Obj {
+							callers++
+							if !writesAfter(cf, c2.Pos()) {
+								all = false
+							}
+						}
+						return true
+					})
+				}
+				ok2 = callers > 0 && all
+			}
+			r.Check(ok2, "C06.deadline", core.FuncName(fi.Obj)+" "+sel.Sel.Name, p.Pos(call.Pos()), "the deadline is armed for a write that follows it",
+				"an absolute deadline is armed here and no write to the connection follows in this function (or in the callers of this helper): it is a limit on the connection's age, and once the connection is older than the timeout every send on the healthy link fails")
+			return true
+		})
 	}
 }
